@@ -248,6 +248,8 @@ def build_world(world):
     b.workload.populate_task_graphs(completion_time=US(world["sim"]["loop_timeout"]))
     if world.get("mixed_units"):
         _mix_units(world, b)
+    if world.get("stagger_sources"):
+        _stagger_sources(world, b)
     if _LOADER_CLS is None:
         _LOADER_CLS = make_loader_classes()
     if world.get("loader", {}).get("kind") == "batch":
@@ -260,6 +262,27 @@ def build_world(world):
     b.loop_timeout = US(world["sim"]["loop_timeout"])
     b.scheduler_frequency = US(world["sim"]["scheduler_frequency"])
     return b
+
+
+def _stagger_sources(world, b):
+    """task graphs whose source tasks arrive at different instants (what the trace loaders and
+    Workload.from_task_graphs produce; JobGraph.generate_task_graphs gives every source the graph's release
+    time): a seeded subset of the sources of multi-source graphs is released a few microseconds later"""
+    import random
+
+    from utils import EventTime
+
+    r = random.Random(f"{world['seed']}:stagger")
+    for name in sorted(b.workload.task_graphs):
+        tg = b.workload.task_graphs[name]
+        sources = sorted(tg.get_source_tasks(), key=lambda t: t.name)
+        if len(sources) < 2 or r.random() < 0.3:
+            continue
+        for t in sources[1:]:
+            if r.random() < 0.7:
+                late = t.release_time + EventTime(r.choice([1, 2, 3, 5, 8]), EventTime.Unit.US)
+                t._release_time = late
+                t._intended_release_time = late
 
 
 def _mix_units(world, b):
